@@ -640,6 +640,97 @@ Example C19_dst_relative_week_start_example :
   z_date_of ny_table (z_get_relative_start_of_week ny_table (1710086400 * NS) 0 (-1)) = (2024, 3, 3).
 Proof. vm_compute. intuition reflexivity. Qed.
 
+(* ---- (h) the week window over a table (REPAIRED form: end = start.AddDate(0,0,7); C19_dst_week_window_168h_refuted shows
+   that start + 168 h can end before its anchor).  If the midnights of t's civil day, of its Monday and of the next
+   Monday exist exactly once: the window contains its anchor, starts at Monday 00:00:00.0 of t's week, ends at the next
+   Monday 00:00:00.0, is EXACTLY the set of instants whose civil day is one of those 7 days, lasts 7 x 24 h minus the
+   offset change between its ends (167 h / 169 h in a week with a transition), and the window of its end starts there
+   (consecutive windows tile the time line) *)
+Theorem C19_dst_week_window_contains_anchor : forall B D z t, zone_okb B D z = true -> 2 * B <= D ->
+  midnight_regular z (z_lday z t) = true ->
+  midnight_regular z (monday_of (z_lday z t)) = true ->
+  midnight_regular z (monday_of (z_lday z t) + 7) = true ->
+  let p := z_new_period_window_week z t in
+  pstart p <= t < pend p /\
+  pstart p = z_get_start_of_week z t 1 /\
+  z_lday z (pstart p) = monday_of (z_lday z t) /\ z_weekday_of z (pstart p) = 1 /\
+  z_clock_of z (pstart p) = (0, 0, 0) /\ nsec (pstart p) = 0 /\
+  z_lday z (pend p) = z_lday z (pstart p) + 7 /\ z_weekday_of z (pend p) = 1 /\
+  z_clock_of z (pend p) = (0, 0, 0) /\ nsec (pend p) = 0 /\
+  (forall x, pstart p <= x < pend p <-> monday_of (z_lday z t) <= z_lday z x < monday_of (z_lday z t) + 7) /\
+  pend p - pstart p = (7 * DAY_S - (zoff z (pend p) - zoff z (pstart p))) * NS /\
+  WEEK - 2 * B * NS <= pend p - pstart p <= WEEK + 2 * B * NS /\
+  pstart (z_new_period_window_week z (pend p)) = pend p.
+Proof. intros B D z t H. exact (dst_week_window B D z t (zone_okb_ok B D z H)). Qed.
+Print Assumptions C19_dst_week_window_contains_anchor.
+
+Example C19_dst_week_window_example :
+  (* Berlin, Sunday 2024-03-31 12:00 CEST (the transition day): [Monday 03-25 00:00 CET, Monday 04-01 00:00 CEST), 167 h;
+     New_York, the anchor of C19_dst_week_window_168h_refuted (Sunday 2024-11-03 23:30 EST): a window of 169 h *)
+  let t := 1711879200 * NS in
+  z_lday berlin_table t = 19813 /\ monday_of 19813 = 19807 /\
+  midnight_regular berlin_table 19813 = true /\ midnight_regular berlin_table 19807 = true /\
+  midnight_regular berlin_table (19807 + 7) = true /\
+  z_new_period_window_week berlin_table t = (1711321200 * NS, 1711922400 * NS) /\
+  1711922400 * NS - 1711321200 * NS = WEEK - HOUR /\
+  (let p := z_new_period_window_week ny_table (1730694600 * NS) in
+   midnight_regular ny_table (z_lday ny_table (1730694600 * NS)) = true /\
+   midnight_regular ny_table (monday_of (z_lday ny_table (1730694600 * NS))) = true /\
+   midnight_regular ny_table (monday_of (z_lday ny_table (1730694600 * NS)) + 7) = true /\
+   pend p - pstart p = WEEK + HOUR).
+Proof. vm_compute. intuition reflexivity. Qed.
+
+(* ---- (i) next moment over a table (REPAIRED form: tomorrow's moment rebuilt with time.Date(day + 1); instant and time.Local
+   in the same zone).  q = h:m:s as second of the day, X = civil day of t, Y = next_moment_day z t q = the civil day the
+   helper lands on (X + 1 iff today's h:m:s, as time.Date resolves it, is not after t).
+   Hypotheses: h:m:s is regular today (on X) and on the landing day Y.  Then the result is strictly after t, on civil
+   day Y (today or tomorrow), reads h:m:s.0, at the stated distance (at most 24 h + 2B), is the exact boundary "wall
+   clock >= Y h:m:s", and — when h:m:s is also regular on day Y - 1 (yesterday if the result is today's, else already
+   assumed) — no instant in (t, r) reads h:m:s.0.
+   EXCLUDED, precisely: (1) today's h:m:s in a gap or repeated interval of the table (the comparison with now is then
+   made against what time.Date substitutes; C19_dst_next_moment_adddate_refuted is about that case); (2) the landing
+   day's h:m:s in a gap: the open finding C19-next-moment-in-a-midnight-gap — when tomorrow's h:m:s is skipped and
+   time.Date resolves it backwards across midnight the result is in the PAST (Example below, Havana); (3) for minimality,
+   yesterday's h:m:s shown twice with the second showing after t. *)
+Theorem C19_dst_next_moment : forall B D z t h m s, zone_okb B D z = true -> 2 * B <= D ->
+  0 <= h < 24 -> 0 <= m < 60 -> 0 <= s < 60 ->
+  let q := h * 3600 + m * 60 + s in
+  let Y := next_moment_day z t q in
+  wall_regular z (z_lday z t * DAY_S + q) = true ->
+  wall_regular z (Y * DAY_S + q) = true ->
+  let r := z_get_next_moment z z t h m s in
+  t < r /\ z_lday z r = Y /\ z_lday z t <= Y <= z_lday z t + 1 /\ z_clock_of z r = (h, m, s) /\ nsec r = 0 /\
+  r - t = ((Y - z_lday z t) * DAY_S + q - z_sod z t - (zoff z r - zoff z t)) * NS - nsec t /\
+  r - t <= DAY + 2 * B * NS /\
+  (forall x, r <= x <-> Y * DAY_S + q <= z_lday z x * DAY_S + z_sod z x) /\
+  (wall_regular z ((Y - 1) * DAY_S + q) = true ->
+     forall x, t < x -> z_clock_of z x = (h, m, s) -> nsec x = 0 -> r <= x) /\
+  (z_is_moment_passed z z t h m s = true -> Y = z_lday z t + 1) /\
+  (Y = z_lday z t <-> t < z_wall_inst z (z_lday z t) q) /\
+  z_is_moment_future z z t h m s = negb (z_is_moment_passed z z t h m s).
+Proof. intros B D z t h m s H. exact (dst_next_moment B D z t h m s (zone_okb_ok B D z H)). Qed.
+Print Assumptions C19_dst_next_moment.
+
+Example C19_dst_next_moment_example :
+  (* New_York 2024-03-10 01:00 EST, 03:00:00 asked: regular on the transition day (it is the instant of the transition),
+     one hour away, not two *)
+  let t := 1710050400 * NS in
+  z_lday ny_table t = 19792 /\ next_moment_day ny_table t 10800 = 19792 /\
+  wall_regular ny_table (19792 * DAY_S + 10800) = true /\ wall_regular ny_table ((19792 - 1) * DAY_S + 10800) = true /\
+  z_get_next_moment ny_table ny_table t 3 0 0 = t + HOUR /\
+  (* 2024-03-09 12:00 EST, 03:30:00 asked: today's has passed, tomorrow's (the transition day) is regular: 14.5 h away *)
+  (let t2 := 1710003600 * NS in
+   next_moment_day ny_table t2 12600 = 19792 /\ wall_regular ny_table (19791 * DAY_S + 12600) = true /\
+   wall_regular ny_table (19792 * DAY_S + 12600) = true /\
+   z_get_next_moment ny_table ny_table t2 3 30 0 - t2 = 14 * HOUR + 30 * MINUTE) /\
+  (* excluded: Havana 2024-03-09 23:56:40 CST, 00:12:32 asked: tomorrow's 00:12:32 is in the gap at local midnight, the
+     hypothesis on the landing day fails and the result is 23:12:32 of TODAY, before now (C19-next-moment-in-a-midnight-gap) *)
+  (let t3 := 1710046600 * NS in
+   next_moment_day havana_table t3 752 = 19792 /\ wall_regular havana_table (19792 * DAY_S + 752) = false /\
+   z_get_next_moment havana_table havana_table t3 0 12 32 = 1710043952 * NS /\
+   z_clock_of havana_table (1710043952 * NS) = (23, 12, 32) /\ (1710043952 * NS <? t3) = true).
+Proof. vm_compute. intuition reflexivity. Qed.
+
 (* ---- (g) the code AS WRITTEN before fixes/C19-dst-calendar-arithmetic.patch (168-hour weeks, AddDate applied to a
    moment that time.Date moved out of a gap) violates the property on the New_York table: the three defects of
    docs/C19-NOTES.md, now visible inside Coq (in fixed-offset zones the two forms are equal:
